@@ -323,4 +323,25 @@ theorem intStr_chars (i : ℤ) : ∀ c ∈ intStr i, c ∈ "0123456789-+".toList
   · exact hd _ _ hc
 
 
+/-! ### definitional facts (kept out of Props: they restate definitions) -/
+
+/-- `fmt=None` means the default precision extracted from the source -/
+theorem numberToX_default (f : Fmt) (x : ℚ) (unit : Option (List Char)) :
+    numberToX f none x unit = numberToX f (some Gen.PrintingNumbers.defaultPrecision) x unit := rfl
+
+/-- the renderer behind the `magnitude_fmt` of a printer (`none`: the plain `%.3g` printer) -/
+def printerFmt : Printer → Option Fmt
+  | .str => none
+  | .unicode => some .unicode
+  | .latex => some .latex
+  | .html => some .html
+
+theorem reactionParamStr_quantity (pr : Printer) (mag : ℚ) (u : List Char) :
+    reactionParamStr pr (.quantity mag u) = (magFmt pr mag >>= fun s => pure (s ++ ' ' :: u)) := rfl
+theorem reactionParamStr_float (pr : Printer) (x : ℚ) : reactionParamStr pr (.float x) = magFmt pr x := rfl
+theorem reactionParamStr_other (pr : Printer) (t : List Char) : reactionParamStr pr (.other t) = .ok t := rfl
+theorem magFmt_str (x : ℚ) : magFmt .str x = .ok (fmtG Gen.PrintingNumbers.strMagnitudePrecision x) := rfl
+theorem uncertRecord_noExp (x xe : ℚ) (prec : ℤ) : (uncertRecord x xe prec).noExp = ilog10 (absR xe) - prec + 1 := rfl
+theorem uncertRecord_xExp (x xe : ℚ) (prec : ℤ) : (uncertRecord x xe prec).xExp = ilog10 (absR x) := rfl
+
 end ChemModel.NumFmt
